@@ -118,6 +118,7 @@ func c13(p *core.Prog, r *core.Report) {
 		}
 		okDef := def != nil && def.Block() == f.Blocks[0]
 		r.Check(okDef, "C13-R2", fname(f), "deferred initError registered at entry", p.Pos(f.Pos()), "every return runs the failure handler", "a return can bypass the handshake failure handler")
+		handshakeDeferOrder(p, r, f, def, "C13-R4")
 		// R4
 		var dl ssa.Instruction
 		for _, c := range core.CallsIn(f, "setInitDeadline") {
@@ -329,4 +330,19 @@ func c13(p *core.Prog, r *core.Report) {
 		})
 		r.Check(ok, "C13-R4", fname(f), "default handshake deadline 5s", p.Pos(f.Pos()), "now + 5s when the context has no deadline", "no 5 s default deadline")
 	}
+}
+
+// handshakeDeferOrder: the failure handler (which writes the error frame to
+// the peer) runs while the handshake deadline is still armed: the deferred
+// reset of the deadline is registered before the deferred initError, so it
+// runs after it. Otherwise a stalled peer blocks the error-frame write for ever.
+func handshakeDeferOrder(p *core.Prog, r *core.Report, f *ssa.Function, initErrDefer ssa.Instruction, rule string) {
+	var reset ssa.Instruction
+	core.EachInstr(f, func(i ssa.Instruction) {
+		if d, ok := i.(*ssa.Defer); ok && callResult(d.Call.Value, "setInitDeadline") != nil {
+			reset = i
+		}
+	})
+	ok := reset != nil && initErrDefer != nil && reset.Block() == initErrDefer.Block() && before(reset, initErrDefer)
+	r.Check(ok, rule, fname(f), "deadline reset deferred before initError (runs after it)", p.Pos(f.Pos()), "defer order: reset first, failure handler second", "the handshake deadline is cleared before the failure handler writes its error frame: the write is unbounded and a stalled peer holds the caller past its deadline")
 }
